@@ -32,7 +32,7 @@ def gen(rng, tier):
                             cases.append({'cls': cls, 'lens': lens, 'fins': ''.join(fins), 'blocked': blocked, 'medium': medium, 'seed': 7 * n + m})
     # the caller uses the wrapped file object between finalisations (seek / read move its position); the writer must not
     # write anything on a later finalisation wherever the stream then stands
-    for i in range(300 if tier == 'quick' else 4000):
+    for i in range(300 if tier == 'quick' else 12000):
         lens = rng.choice([[5], [1010, 3], [1500, 700], [1004, 1008, 7], [300] * 8, [1012], [1008]])
         toks = [rng.choice('CXR')]
         for _ in range(rng.randint(1, 4)):
